@@ -1381,8 +1381,26 @@ namespace bloch::runtime {
     void RuntimeEvaluator::markObject(const std::shared_ptr<Object>& obj) {
         if (!obj || obj->marked)
             return;
+        // explicit work list: a long chain of objects must not recurse once per link
+        std::vector<Object*> work;
         obj->marked = true;
-        for (const auto& field : obj->fields) markValue(field);
+        work.push_back(obj.get());
+        auto visit = [&](const std::shared_ptr<Object>& o) {
+            if (o && !o->marked) {
+                o->marked = true;
+                work.push_back(o.get());
+            }
+        };
+        while (!work.empty()) {
+            Object* cur = work.back();
+            work.pop_back();
+            for (const auto& field : cur->fields) {
+                if (field.type == Value::Type::Object)
+                    visit(field.objectValue);
+                else if (field.type == Value::Type::ObjectArray)
+                    for (const auto& o : field.objectArray) visit(o);
+            }
+        }
     }
 
     void RuntimeEvaluator::markValue(const Value& v) {
@@ -2538,14 +2556,34 @@ namespace bloch::runtime {
                 // stays valid until that reference is dropped as well; the object is marked
                 // destroyed by then and is not destructed a second time.
                 std::shared_ptr<Object> self(obj, [](Object* o) { delete o; });
-                try {
-                    destroyObject(self, !obj->skipDestructor);
-                } catch (...) {
-                    // deleters run inside noexcept destructors (and possibly while another
-                    // error unwinds): never let an exception out of here
-                    if (!m_pendingDestructorError)
-                        m_pendingDestructorError = std::current_exception();
+                // Destroying an object releases its fields, which may destroy further objects
+                // from inside this deleter. Beyond a fixed nesting depth the rest of a chain
+                // is parked and worked off in a loop, so that a long list cannot exhaust the
+                // native stack.
+                if (m_deleterDepth >= kMaxDeleterDepth) {
+                    m_parkedDying.push_back(std::move(self));
+                    return;
                 }
+                auto destroyNow = [this](const std::shared_ptr<Object>& dying) {
+                    try {
+                        destroyObject(dying, !dying->skipDestructor);
+                    } catch (...) {
+                        // deleters run inside noexcept destructors (and possibly while another
+                        // error unwinds): never let an exception out of here
+                        if (!m_pendingDestructorError)
+                            m_pendingDestructorError = std::current_exception();
+                    }
+                };
+                ++m_deleterDepth;
+                destroyNow(self);
+                if (m_deleterDepth == kMaxDeleterDepth) {
+                    while (!m_parkedDying.empty()) {
+                        std::shared_ptr<Object> next = std::move(m_parkedDying.back());
+                        m_parkedDying.pop_back();
+                        destroyNow(next);
+                    }
+                }
+                --m_deleterDepth;
             };
             auto obj = std::shared_ptr<Object>(new Object{}, deleter);
             obj->cls = cls;
